@@ -37,7 +37,13 @@ type fmtEvent struct {
 	A     interface{} `json:"a"`
 	B     interface{} `json:"b"`
 	Cmp   int         `json:"cmp"`
-	Res   string      `json:"res"`
+	// order of integers beyond 32 bits: sign (-1, 0, 1) and 8-byte big-endian magnitude of each side
+	Wide  bool   `json:"wide"`
+	ASign int    `json:"asign"`
+	BSign int    `json:"bsign"`
+	AMag  []int  `json:"amag"`
+	BMag  []int  `json:"bmag"`
+	Res   string `json:"res"`
 	// defaults
 	Legacy  string `json:"legacy"`
 	Size    int    `json:"size"`
@@ -304,6 +310,48 @@ func formatFamily(seed int64, n int, out *json.Encoder) {
 		}
 		oe.Cmp = r
 		emitFmt(out, oe)
+		if classOf(goT) == "int" {
+			// the whole range of the type
+			wide := func() (interface{}, int, []int) {
+				u := rng.Uint64() >> uint(rng.Intn(3)*20)
+				if rng.Intn(4) == 0 {
+					u |= 1 << 63
+				}
+				neg := false
+				var k interface{}
+				switch goT {
+				case "int":
+					k, neg = int(int64(u)), int64(u) < 0
+				case "int64":
+					k, neg = int64(u), int64(u) < 0
+				case "uint":
+					k = uint(u)
+				default:
+					k = u
+				}
+				mag := u
+				sign := 1
+				if neg {
+					mag = uint64(-int64(u))
+					sign = -1
+				}
+				if mag == 0 {
+					sign = 0
+				}
+				var mb [8]byte
+				binary.BigEndian.PutUint64(mb[:], mag)
+				return k, sign, toInts(mb[:])
+			}
+			ka, sa, ma := wide()
+			kb, sb, mb := wide()
+			we := fmtEvent{Op: "order", KT: "int", GoT: goT, Res: "ok", Wide: true, ASign: sa, BSign: sb, AMag: ma, BMag: mb}
+			r, err := cmp(ka, kb)
+			if err != nil {
+				we.Res = err.Error()
+			}
+			we.Cmp = r
+			emitFmt(out, we)
+		}
 	}
 }
 
@@ -322,6 +370,12 @@ func emitFmt(out *json.Encoder, ev fmtEvent) {
 	}
 	if ev.Mag == nil {
 		ev.Mag = []int{}
+	}
+	if ev.AMag == nil {
+		ev.AMag = []int{}
+	}
+	if ev.BMag == nil {
+		ev.BMag = []int{}
 	}
 	if ev.Key == nil {
 		ev.Key = 0
